@@ -40,6 +40,7 @@
 #include "plugins_internal.h"
 #include "plugins_types.h"
 #include "schema_compile.h"
+#include "schema_features.h"
 #include "set.h"
 #include "tree.h"
 #include "tree_data.h"
@@ -224,12 +225,16 @@ ly_ctx_load_module(struct ly_ctx *ctx, const char *name, const char *revision, c
 {
     struct lys_module *mod = NULL;
     LY_ERR ret = LY_SUCCESS;
+    ly_bool *feat_backup = NULL;
 
     LY_CHECK_ARG_RET(ctx, ctx, name, NULL);
 
     /* load and parse */
     ret = lys_parse_load(ctx, name, revision, &ctx->unres.creating, &mod);
     LY_CHECK_GOTO(ret, cleanup);
+
+    /* remember the features, they are changed before anything can fail */
+    LY_CHECK_GOTO(ret = lys_features_backup(mod->parsed, &feat_backup), cleanup);
 
     /* implement */
     ret = _lys_set_implemented(mod, features, &ctx->unres);
@@ -248,10 +253,14 @@ ly_ctx_load_module(struct ly_ctx *ctx, const char *name, const char *revision, c
 
 cleanup:
     if (ret) {
+        if (feat_backup) {
+            lys_features_restore(mod->parsed, feat_backup);
+        }
         lys_unres_glob_revert(ctx, &ctx->unres);
         lys_unres_glob_erase(&ctx->unres);
         mod = NULL;
     }
+    free(feat_backup);
     return mod;
 }
 
